@@ -975,6 +975,9 @@ class HandHistory(Iterable[State]):
                 cleaned_value = str(value)
             elif isinstance(value, Decimal):
                 cleaned_value = 'inf' if value == inf else str(value)
+
+                if cleaned_value.lstrip('-').isdigit():
+                    cleaned_value += '.0'
             elif isinstance(value, list):
                 cleaned_value = '[' + ', '.join(map(clean_value, value)) + ']'
             elif isinstance(value, dict):
